@@ -37,6 +37,7 @@ import (
 	"github.com/codenotary/immudb/embedded/cache"
 	"github.com/codenotary/immudb/embedded/logger"
 	"github.com/codenotary/immudb/embedded/multierr"
+	"github.com/codenotary/immudb/embedded/verifhook"
 	"github.com/prometheus/client_golang/prometheus"
 )
 
@@ -1416,6 +1417,9 @@ func writeTsFile(path, name string, ts uint64) error {
 	}()
 	if err != nil {
 		return err
+	}
+	if verifhook.On {
+		defer verifhook.Emit("FRename", tempFileName, filepath.Join(path, name))
 	}
 	return os.Rename(tempFileName, filepath.Join(path, name))
 }
